@@ -9,6 +9,7 @@ package api
 import (
 	"bytes"
 	"fmt"
+	"math/rand"
 	"net/http"
 	"net/http/httptest"
 	"os"
@@ -121,7 +122,37 @@ func c18NewCluster(opt *option.Options) (cluster.Cluster, error) {
 	}
 }
 
+// c18JitterCluster delays the store operations the admin API issues by a random time while enabled
+// (a slow network): it widens the windows between the etcd operations of a handler, it never changes
+// their outcome. The cluster mutex (Mutex) is passed through untouched.
+type c18JitterCluster struct {
+	cluster.Cluster
+	maxMicros *int64
+	mu        sync.Mutex
+	rng       *rand.Rand
+}
+
+func (j *c18JitterCluster) delay() {
+	m := atomic.LoadInt64(j.maxMicros)
+	if m <= 0 {
+		return
+	}
+	j.mu.Lock()
+	d := j.rng.Int63n(m)
+	j.mu.Unlock()
+	time.Sleep(time.Duration(d) * time.Microsecond)
+}
+
+func (j *c18JitterCluster) Get(key string) (*string, error) { j.delay(); return j.Cluster.Get(key) }
+func (j *c18JitterCluster) Put(key, value string) error     { j.delay(); return j.Cluster.Put(key, value) }
+func (j *c18JitterCluster) Delete(key string) error         { j.delay(); return j.Cluster.Delete(key) }
+func (j *c18JitterCluster) GetPrefix(prefix string) (map[string]string, error) {
+	j.delay()
+	return j.Cluster.GetPrefix(prefix)
+}
+
 type c18Env struct {
+	jitter   int64 // max delay in microseconds, 0 = off (atomic)
 	dir      string
 	clusters []cluster.Cluster
 	servers  []*Server
@@ -175,7 +206,7 @@ func c18Setup(members int) (*c18Env, error) {
 	}
 	super := supervisor.NewDefaultMock()
 	// member 1: the real constructor and the real dynamic router
-	s1 := MustNewServer(opt, cls, super, nil)
+	s1 := MustNewServer(opt, &c18JitterCluster{Cluster: cls, maxMicros: &e.jitter, rng: vx.Rand(1801)}, super, nil)
 	e.clusters = append(e.clusters, cls)
 	e.servers = append(e.servers, s1)
 	e.handlers = append(e.handlers, s1.router)
@@ -202,7 +233,7 @@ func c18Setup(members int) (*c18Env, error) {
 			e.Close()
 			return nil, err
 		}
-		s2 := &Server{opt: o2, cluster: c2, super: super}
+		s2 := &Server{opt: o2, cluster: &c18JitterCluster{Cluster: c2, maxMicros: &e.jitter, rng: vx.Rand(int64(1802 + i))}, super: super}
 		s2.router = &dynamicMux{server: s2, done: make(chan struct{})}
 		e.clusters = append(e.clusters, c2)
 		e.servers = append(e.servers, s2)
@@ -456,7 +487,12 @@ func TestVerifC18ApiConc(t *testing.T) {
 			C, R, nNames = 5, 8, 1
 			opsMix = []string{"create", "update", "delete", "delete"}
 		}
-		w.Emit(vx.M{"ev": "reset", "ver": base, "scen": sc, "clients": C, "members": len(e.handlers), "names": nNames, "hot": hot})
+		jit := int64(0)
+		if hot || sc%3 == 1 {
+			jit = int64(500 + rng.Intn(3000))
+		}
+		atomic.StoreInt64(&e.jitter, jit)
+		w.Emit(vx.M{"ev": "reset", "ver": base, "scen": sc, "clients": C, "members": len(e.handlers), "names": nNames, "hot": hot, "jitter_us": int(jit)})
 		var wg sync.WaitGroup
 		for c := 0; c < C; c++ {
 			wg.Add(1)
@@ -492,6 +528,7 @@ func TestVerifC18ApiConc(t *testing.T) {
 			}(c, rng.Int63())
 		}
 		wg.Wait()
+		atomic.StoreInt64(&e.jitter, 0)
 		l := c18Do(e.handlers[sc%len(e.handlers)], "list", "-", "none", 0)
 		w.Emit(vx.M{"ev": "final", "st": l.st, "code": l.code, "objs": l.objs, "ver": l.ver})
 	}
